@@ -276,3 +276,40 @@ Example C19_ex_stream_load_from_source :
   obs (Stepper_gen.load_obs (Some 0%nat) None tt (mk [])) = None.
 Proof. vm_compute. auto. Qed.
 (* ==== end of block (unit stepper) ==== *)
+
+(* ==== handlers of all models read in bounds (unit footprint, all models) ==== *)
+(* Gen/FootAll_gen.v is regenerated on every run by translate/units/footprint.py (second output of the unit, same
+   havoc mode of _stagec.py over Emu/FootPre.v as Gen/Foot_gen.v): the entry point model_<m>_event, process_ev and,
+   where the file has them, simple() and context_switch() of nosv, nanos6, nodes, mpi, tampi, openmp and kernel
+   /event.c, statement by statement.  process_ev of nosv and nanos6 calls the generated pre_task / pre_type of
+   Gen/Foot_gen.v (payload_size guards, u32[0], u32[1], the jumbo label with its memchr); the static tables
+   ss_table / fn_table are ARBITRARY rows (FootPre.opq_row: whatever {chan, action, state} the table holds, for every
+   (c, v)), channels, threads and every untranslated callee are oracles, and the translator refuses (Unsupported,
+   file:line) to pass the event to an untranslated callee that mentions `payload`.  The table-driven handlers and
+   the kernel handler contain no payload read at all, which the generated text shows and the proof does not need.
+   Together with model_ovni_event and mark_event of Gen/Foot_gen.v: for EVERY event (any m/c/v bytes, any payload
+   bytes, any payload size including 0 = no payload, jumbo or not) and every oracle, none of the eight model entry
+   points nor mark_event reads a byte of the payload outside the payload_size bytes of the event (an explicit read
+   emu->ev->payload->arr[k] whose bytes are not inside fails with E_OOB; the theorem says E_OOB is not an outcome).
+   All eight models + marks are covered; the name keeps _partial because C19 as a whole still has readers of
+   trace bytes that are not translated: ev_spec.c:print_arg / ev_spec_print (payload printing of ovnidump and of
+   the emulator's error path; has its own size test at ev_spec.c:372-380, modelled by hand in EvSpecDefs only),
+   ovnidump.c (emit: ev_spec printing + raw payload hex dump), ovnisort.c beyond the ring / find_destination /
+   execute_sort_plan of unit winsort (the event copy loops of write_events / sort_buf read ovni_ev_size bytes),
+   emu_ev() itself (covered by unit loader's ovni_payload_size, not by this unit), the parson JSON reader of
+   stream.json (not trace bytes but malformed input all the same), and, in FootPre, the C-string contract of the
+   label handed to task_type_create (a NUL inside the payload is what pre_type establishes; the callee is not
+   translated). *)
+From OV Require Gen.FootAll_gen Proofs.FootAllProofs.
+Theorem C19_all_handlers_read_in_bounds_partial : forall sx e,
+  FootPre.exec (Foot_gen.model_ovni_event e) sx <> EmuCoreDefs.Err FootPre.E_OOB /\
+  FootPre.exec (Foot_gen.mark_event e) sx <> EmuCoreDefs.Err FootPre.E_OOB /\
+  FootPre.exec (FootAll_gen.nosv_model_nosv_event e) sx <> EmuCoreDefs.Err FootPre.E_OOB /\
+  FootPre.exec (FootAll_gen.nanos6_model_nanos6_event e) sx <> EmuCoreDefs.Err FootPre.E_OOB /\
+  FootPre.exec (FootAll_gen.nodes_model_nodes_event e) sx <> EmuCoreDefs.Err FootPre.E_OOB /\
+  FootPre.exec (FootAll_gen.mpi_model_mpi_event e) sx <> EmuCoreDefs.Err FootPre.E_OOB /\
+  FootPre.exec (FootAll_gen.tampi_model_tampi_event e) sx <> EmuCoreDefs.Err FootPre.E_OOB /\
+  FootPre.exec (FootAll_gen.openmp_model_openmp_event e) sx <> EmuCoreDefs.Err FootPre.E_OOB /\
+  FootPre.exec (FootAll_gen.kernel_model_kernel_event e) sx <> EmuCoreDefs.Err FootPre.E_OOB.
+Proof. exact FootAllProofs.all_handlers_in_bounds. Qed.
+Print Assumptions C19_all_handlers_read_in_bounds_partial.
